@@ -12,9 +12,9 @@ LEVELS = {
     1: dict(ws=0.5, case=0.4, trail=0.05),
     2: dict(ws=0.4, case=0.3, split=0.12, join=0.25, blank=0.08, trail=0.05),
     3: dict(ws=0.3, case=0.2, split=0.10, join=0.20, blank=0.05, cmt_eol=0.15, cmt_own=0.10, trail=0.03),
-    4: dict(ws=0.3, case=0.2, split=0.10, join=0.15, blank=0.05, cmt_eol=0.12, cmt_own=0.08, cmt_split=0.10, trail=0.03),
+    4: dict(ws=0.3, case=0.2, split=0.10, join=0.15, blank=0.05, cmt_eol=0.12, cmt_own=0.08, cmt_split=0.10, trail=0.03, pre_own=0.02),
 }
-FAMILIES = ("ws", "case", "split", "join", "blank", "cmt_eol", "cmt_own", "cmt_split", "trail")
+FAMILIES = ("ws", "case", "split", "join", "blank", "cmt_eol", "cmt_own", "cmt_split", "trail", "pre_own")
 
 
 def _hws(rnd, tabs):
@@ -107,17 +107,21 @@ def relayout(text, rnd, probs, tabs=False, structural_ok=True, tag="c"):
                 elif r < p("join") + p("cmt_eol") + p("cmt_own"):
                     new = head + mid + _indent(rnd, tabs) + "-- %s%d\n" % (tag, idx) + _indent(rnd, tabs)
                     ops["cmt_own"] += 1
-                elif r < p("join") + p("cmt_eol") + p("cmt_own") + p("blank"):
+                elif r < p("join") + p("cmt_eol") + p("cmt_own") + p("pre_own"):
+                    # an own-line preprocessor directive (opaque to VSG, must survive like a comment)
+                    new = head + mid + rnd.choice(["#ifdef SIM_%d", "#endif // %d", "#define X%d 1", " #if defined(Y%d)"]) % idx + "\n" + _indent(rnd, tabs)
+                    ops["pre_own"] += 1
+                elif r < p("join") + p("cmt_eol") + p("cmt_own") + p("pre_own") + p("blank"):
                     if mid.count("\n") > 1 and rnd.random() < 0.5:
                         new = head + "\n" + tail
                         ops["unblank"] += 1
                     else:
                         new = head + mid + "\n" * rnd.randint(1, 2) + tail
                         ops["blank"] += 1
-                elif r < p("join") + p("cmt_eol") + p("cmt_own") + p("blank") + p("trail"):
+                elif r < p("join") + p("cmt_eol") + p("cmt_own") + p("pre_own") + p("blank") + p("trail"):
                     new = head + " " * rnd.randint(1, 3) + mid + tail
                     ops["trail"] += 1
-                elif r < p("join") + p("cmt_eol") + p("cmt_own") + p("blank") + p("trail") + p("ws"):
+                elif r < p("join") + p("cmt_eol") + p("cmt_own") + p("pre_own") + p("blank") + p("trail") + p("ws"):
                     new = head + mid + _indent(rnd, tabs)
                     ops["indent"] += 1
         res.append(new)
